@@ -1246,6 +1246,8 @@ class MindsDBParser(Parser):
     def from_table_aliased(self, p):
         entity = p.from_table
         if hasattr(p, 'identifier'):
+            if len(p.identifier.parts) > 1:
+                raise ParsingException('Alias can not contain multiple parts (dots).')
             entity.alias = p.identifier
         if hasattr(p, 'dquote_string'):
             entity.alias = self.string_to_identifier(p.dquote_string)
@@ -1339,6 +1341,8 @@ class MindsDBParser(Parser):
             alias = self.string_to_identifier(p.quote_string)
         else:
             alias = p.identifier
+        if len(alias.parts) > 1:
+            raise ParsingException('Alias can not contain multiple parts (dots).')
         col.alias = alias
         return col
 
